@@ -186,6 +186,9 @@ def run(tier, seed):
             ref_bin = one(kind, big_bin, model=small)
             for what, t, want in (("whitespace-padded text", json.dumps(base) + " " * n, ref), ("text with leading whitespace", " " * n + json.dumps(base), ref),
                                   ("text with a large ignored member", json.dumps(big_member), ref), ("dict with a large ignored member", big_member, ref),
+                                  ("text whose ignored member is a string of opening brackets", json.dumps(dict(base, clientExtensionResults={"ignored": "[" * n})), ref),
+                                  ("text whose ignored member is a string of braces and quotes", json.dumps(dict(base, clientExtensionResults={"ignored": ('{"' * (n // 2)) + "\\" * 3})), ref),
+                                  ("text whose id is a string of opening brackets", json.dumps(dict(base, id="[{" * (n // 2))), one(kind, dict(base, id="[{" * (n // 2)), model=small)),
                                   ("text with a large binary member", json.dumps(big_bin), ref_bin)):
                 il = one(kind, t, model=small)
                 if il != want:
